@@ -162,7 +162,9 @@ def run_real(case):
                 cancel_out[idx] = rc.out + rc.err
                 cancelled.add(idx)
                 labels.add("cancel")
+            t_r2_ns = None
             if case["second_wave"]:
+                t_r2_ns = time.time_ns()
                 r2 = proj.gwf(["run"])
                 if r2.code != 0 or r2.crashed:
                     v("C07", "local-run-failed", r2.brief())
@@ -220,6 +222,32 @@ def run_real(case):
                 if k > submissions.get(n, 0):
                     v("C13", "respawn", f"{n} was started {k} times but submitted {submissions.get(n, 0)} time(s)")
             resubmitted = {n for n, k in submissions.items() if k > 1}
+            # ---- C02: a target whose job is certainly still running is never submitted again
+            if t_r2_ns is not None:
+                first_start, first_end = {}, {}
+                for l in jl:
+                    if l[0] == "start":
+                        first_start.setdefault(l[1], int(l[3]))
+                    elif l[0] == "end":
+                        first_end.setdefault(l[1], int(l[2]))
+                for n in sorted(resubmitted):
+                    i = names.index(n)
+                    if i in cancel_ns and cancel_ns[i] < t_r2_ns:
+                        continue  # cancelled before the second run: re-submission is expected
+                    # its job must not have failed, nor may anything upstream have failed or been cancelled
+                    blocked = False
+                    stack = [i]
+                    while stack:
+                        k = stack.pop()
+                        if tasks[k]["rc"] != 0 or (k in cancel_ns and cancel_ns[k] < t_r2_ns):
+                            blocked = True
+                        stack.extend(tasks[k]["deps"])
+                    if blocked:
+                        continue
+                    if n not in first_end or first_end[n] > t_r2_ns + 300_000_000:
+                        v("C02", "resubmitted-while-in-flight",
+                          f"{n} was pending or running (submitted by the first invocation, its job had not ended) when the "
+                          f"second `gwf run` started, yet it was submitted again")
             # ---- C13: final states and logs
             cancelled = {i for i in cancelled if names[i] not in resubmitted}
             failed_or_blocked = set()
